@@ -79,7 +79,7 @@ def plant(fault, level, delta, w, n):
         else:
             add(Inst("bad", cell, {"a": bus, "b": Slc(Sig("k"), 1, 1)}))
     elif fault == 13:  # orphan signal (no owner / other owner)
-        add(Inst("bad", cell, {"a": Orphan(0 if delta > 0 else 1, w), "b": g}))
+        add(Inst("bad", cell, {"a": Orphan((0 if w == 1 else 1) if delta > 0 else 2, w), "b": g}))
     elif fault == 14:  # orphan inside a concatenation / anonymous bundle
         if delta > 0 and w >= 2:  # the foreign signal is the LAST part of a concatenation that stays a concatenation
             add(Inst("bad", cell, {"a": Cat((Slc(Sig("k"), 0, w - 1), Orphan(0, 1))), "b": g}))
